@@ -697,6 +697,15 @@ class SymNum:
     def __index__(self):
         v = concrete_value(self)
         if v is None:
+            # a symbolic integer used to index a python sequence: when the path condition bounds it to a few values
+            # (e.g. the position of a minimum among 2-3 candidates) split the path per value; otherwise undecided
+            c = Ctx.current
+            if c is not None and self.kind == "int" and not c.in_spec:
+                lo_ok, _ = c.check([z3.Not(z3.And(self.t >= 0, self.t < 6))], timeout_ms=2000)
+                if lo_ok == "unsat":
+                    for k in range(6):
+                        if self == k:
+                            return k
             raise Unsupported("symbolic number used as a concrete index/size: %s" % self)
         return int(v)
 
